@@ -718,7 +718,10 @@ def check_property(pid, tier, only_unit=None, keep=False, no_canary=False, only_
     units = discover(pid)
     if only_unit:
         units = [u for u in units if u["unit"] == only_unit]
-    units = [u for u in units if tier == "thorough" or u["tier"] == "quick"]
+    for u in units:
+        if u["tier"] == "parked":
+            print("PARKED: unit %s (%s)" % (u["unit"], u.get("parked_reason", "resource limit")))
+    units = [u for u in units if u["tier"] != "parked" and (tier == "thorough" or u["tier"] == "quick")]
     if not units:
         raise Infra("no units for %s" % pid)
     known = load_known()
@@ -727,6 +730,11 @@ def check_property(pid, tier, only_unit=None, keep=False, no_canary=False, only_
     for u in units:
         for c in u["cases"]:
             if c.get("tier", "quick") == "thorough" and tier != "thorough":
+                continue
+            if c.get("tier") == "parked":
+                # a case that exceeds the time or memory of this machine in every tier: kept in the unit for the
+                # record, never run, listed under not_covered of the property's meta.json
+                print("PARKED: %s.%s (%s)" % (u["unit"], c["name"], c.get("parked_reason", "resource limit")))
                 continue
             if only_case and c["name"] != only_case:
                 continue
